@@ -178,9 +178,20 @@ def access_targets():
     ctt = Fn('cache_targets_task', ITU, 'cache_targets', flt='targets_iterator_t::cache_targets', lambda_index=0, members=members, calls=calls, **common)
     cft = Fn('cache_flatten_task', ITU, 'cache_flatten', flt='flatten_iterator_t::cache_flatten', lambda_index=0, members=members, calls=calls,
              extra_params=['struct nv_samples* samples', 'struct nv_dataset* dataset'], **common)
+    import ctor_spec
+    omembers = [(r'^resize\|nano::tensor_vector_storage_t<double, [24]>|^resize\|nano::tensor[24]d_t|^resize\|nano::tensor_t<nano::tensor_vector_storage_t, double, [24]>', 'nv_cache_resize({self}, {0})!'),
+                (r'^target_dims\|nano::dataset_t', 'nv_ds_tdims({self})'), (r'^columns\|nano::dataset_t', 'nv_ds_columns({self})'),
+                (r'^batch\|nano::targets_iterator_t \*', '{self}->m_batch')] + members
+    ocalls = [(r'^size\|', 'nv_tdims_size({0})'), (r'^cat_dims\|', '{0}')] + calls
+    octc = dict(common, hooks=[scale_view_hook, ctor_spec.imul_hook], types=[(r'^nano::tensor[34]d_dims_t$|^std::array<long, [34](UL)?>$|tensor_dims_t<', 'uint64_t')] + types)
+    oct_ = Fn('cache_targets', ITU, 'cache_targets', flt='targets_iterator_t::cache_targets', calls=ocalls,
+              members=[(r'^map\|nano::base_dataset_iterator_t \*', 'nv_cache_map(self, &self->m_targets, NV_TARGETS, self->m_targets_stats.id, {0}, {1})!')] + omembers, **octc)
+    ocf = Fn('cache_flatten', ITU, 'cache_flatten', flt='flatten_iterator_t::cache_flatten', calls=ocalls,
+             members=[(r'^map\|nano::base_dataset_iterator_t \*', 'nv_cache_map(self, &self->m_flatten, NV_FLATTEN, self->m_flatten_stats.id, {0}, {1})!')] + omembers, **octc)
+    outer = [Target('cache_targets', [oct_], H), Target('cache_flatten', [ocf], H)]
     sset = Fn('scaling_set', ITU, 'scaling', flt='targets_iterator_t::scaling', select=nparams(1), members=members, calls=calls, **common)
     bset = Fn('batch_set', ITU, 'batch', flt='targets_iterator_t::batch', select=nparams(1), members=members, calls=calls, **common)
-    return [Target('scaling_set', [sset], H), Target('batch_set', [bset], H),
+    return outer + [Target('scaling_set', [sset], H), Target('batch_set', [bset], H),
             Target('targets_scaled', [tsc()], H), Target('flatten_scaled', [fsc()], H),
             Target('targets_at', [tat, tsc(), mkr(), rng()], H), Target('flatten_at', [fat, fsc(), mkr(), rng()], H),
             Target('cache_targets_task', [ctt, tsc(), mkr(), rng()], H), Target('cache_flatten_task', [cft, fsc(), mkr(), rng()], H)]
